@@ -79,6 +79,9 @@ func (r *Reader) readSecondStage(bufMeta []bufferMeta) (rb []byte, err error) {
 			// rb = append(rb, rbTemp...)
 			if (rbCursor + len(rbTemp)) > totalDatalen {
 				totalDatalen += totalDatalen
+				if totalDatalen < rbCursor+len(rbTemp) {
+					totalDatalen = rbCursor + len(rbTemp)
+				}
 				rb2 := make([]byte, totalDatalen)
 				copy(rb2[:rbCursor], rb[:rbCursor])
 				rb = rb2
